@@ -276,6 +276,27 @@ func TestRace(t *testing.T) {
 	}
 	n := 0
 	start := time.Now()
+	// Real-time watchdog (outside any bubble): a real deadlock inside corebgp with
+	// goroutines waiting on a mutex is not a durable block, so the bubble's fake
+	// clock stops and the scenario's own timeouts never fire.
+	var progress atomic.Int64
+	go func() {
+		last, since := int64(-1), time.Now()
+		for {
+			time.Sleep(time.Second)
+			if p := progress.Load(); p != last {
+				last, since = p, time.Now()
+			} else if time.Since(since) > 25*time.Second {
+				js, _ := json.Marshal(map[string]any{"scenarios": last, "wall_s": time.Since(start).Seconds(), "hung": true,
+					"sessions_established": raceEst.Load(), "connections": raceConns.Load(), "dial_attempts": raceDials.Load()})
+				if *fOut != "" {
+					os.WriteFile(*fOut, js, 0o644)
+				}
+				fmt.Printf("RACE-HUNG after scenario %d\nRACE-RESULT %s\n", last, js)
+				os.Exit(0)
+			}
+		}
+	}()
 	for s := *fRaceFrom; s < *fRaceTo; s++ {
 		if *fBudget > 0 && time.Since(start).Seconds() > *fBudget {
 			break
@@ -290,6 +311,7 @@ func TestRace(t *testing.T) {
 			runRaceScenario(t, *fSeed*1000003+s)
 		})
 		n++
+		progress.Store(int64(n))
 	}
 	js, _ := json.Marshal(map[string]any{"scenarios": n, "wall_s": time.Since(start).Seconds(), "sessions_established": raceEst.Load(),
 		"connections": raceConns.Load(), "dial_attempts": raceDials.Load()})
